@@ -16,7 +16,7 @@
 //!  * same seed + same inputs ⇒ same id sequence (fresh sampler, and a clone taken mid-stream).
 use hcommon::{Args, Out, Rng};
 use rten_generate::sampler::{ArgMax, Multinomial, Sampler};
-use rten_generate::verif::{fastrand, multinomial, softmax_probs};
+use rten_generate::verif::{fastrand, multinomial, poison_scratch, softmax_probs, softmax_probs_stale_dst};
 use rten_generate::Logits;
 
 const NEG_INF: f32 = f32::NEG_INFINITY;
@@ -171,6 +171,7 @@ fn ms_sequence(out: &mut Out, seed: u64, inputs: &[(Vec<f32>, Option<Vec<u32>>)]
     let sampler = Multinomial::with_seed(seed);
     let mut mirror = fastrand::Rng::with_seed(seed);
     let mut produced: Vec<Option<u32>> = vec![];
+    let mut seq_steps: Vec<Option<String>> = vec![];
     for (scores, ids) in inputs {
         let idv: Vec<u32> = ids.clone().unwrap_or_else(|| (0..scores.len() as u32).collect());
         let logits = make_logits(scores, ids.as_deref());
@@ -181,6 +182,7 @@ fn ms_sequence(out: &mut Out, seed: u64, inputs: &[(Vec<f32>, Option<Vec<u32>>)]
             out.bucket("multinomial_empty");
             out.case("ms t=0@0 p= c= ids=", &ans, None, false);
             produced.push(None);
+            seq_steps.push(Some("t=- p= c= ids=".to_string()));
             continue;
         }
         let target = mirror.f32();
@@ -196,7 +198,9 @@ fn ms_sequence(out: &mut Out, seed: u64, inputs: &[(Vec<f32>, Option<Vec<u32>>)]
             hcommon::join(idv.iter(), ",")
         );
         if nan {
-            req = format!("# {req} logits={:?}", scores);
+            // NaN probabilities (all −inf logits, or a NaN / +inf logit): compared with the
+            // model's `sampleNaN` (first candidate); the logits are appended as a comment word.
+            req = format!("ms t={} p=nan c=nan ids={}", num(target), hcommon::join(idv.iter(), ","));
         } else {
             req += &format!(
                 " l={}",
@@ -206,6 +210,18 @@ fn ms_sequence(out: &mut Out, seed: u64, inputs: &[(Vec<f32>, Option<Vec<u32>>)]
         // The softmax facts the theorems assume, evaluated here on the real vecmath output
         // (independently of the model driver, which evaluates them on the exact values).
         let facts = if nan { None } else { Some(softmax_facts(scores, &probs)) };
+        // T3's hypothesis: softmax overwrites its destination without reading it.
+        let garbage: Vec<f32> = (0..scores.len() + 3)
+            .map(|i| [f32::NAN, f32::INFINITY, 1e30, -5.0, 0.25][i % 5])
+            .collect();
+        let stale = softmax_probs_stale_dst(scores, &garbage);
+        let dst_independent = stale.len() == probs.len()
+            && stale.iter().zip(&probs).all(|(a, b)| a.to_bits() == b.to_bits());
+        seq_steps.push(if nan {
+            None
+        } else {
+            Some(format!("t={} p={} c={} ids={}", num(target), nums(&probs), nums(&cums), hcommon::join(idv.iter(), ",")))
+        });
         let walk = if !nan && target < *cums.last().unwrap() { "hit" } else { "end" };
         let mut fail = None;
         let ans = match res {
@@ -237,6 +253,12 @@ fn ms_sequence(out: &mut Out, seed: u64, inputs: &[(Vec<f32>, Option<Vec<u32>>)]
         };
         out.bucket("multinomial_sample");
         out.bucket(tag);
+        if dst_independent {
+            out.bucket("softmax_ignores_stale_destination");
+        } else {
+            out.bucket("ASSUMPTION_VIOLATED_softmax_reads_destination");
+            fail = Some(format!("assumption of T3 violated: softmax output depends on stale destination contents for logits {:?}", &scores[..scores.len().min(8)]));
+        }
         match &facts {
             Some(Ok(())) => out.bucket("softmax_facts_hold"),
             Some(Err(which)) => {
@@ -282,6 +304,9 @@ fn ms_sequence(out: &mut Out, seed: u64, inputs: &[(Vec<f32>, Option<Vec<u32>>)]
             cloned = Some(again.clone());
         }
         let logits = make_logits(scores, ids.as_deref());
+        // whatever an earlier use left in the scratch buffer must not matter
+        let junk: Vec<f32> = (0..scores.len() + 5).map(|i| [f32::NAN, 7.5, f32::INFINITY, -1.0][(i + k) % 4]).collect();
+        poison_scratch(&again, &junk);
         let a = hcommon::catch(|| again.sample(&logits)).ok();
         if a != produced[k] {
             bad = Some(format!("seed {seed}: sample {k} differs between two samplers with the same seed ({:?} vs {:?})", produced[k], a));
@@ -296,7 +321,17 @@ fn ms_sequence(out: &mut Out, seed: u64, inputs: &[(Vec<f32>, Option<Vec<u32>>)]
             }
         }
     }
-    out.bucket("repeatability_checked_sequences");
+    out.bucket("repeatability_checked_sequences_with_poisoned_scratch");
+    // the same sequence through the model's `sampleSeq`
+    if !inputs.is_empty() && seq_steps.iter().all(|s| s.is_some()) && seq_steps.iter().map(|s| s.as_ref().unwrap().len()).sum::<usize>() < 60_000 {
+        let req = format!("seq {}", hcommon::join(seq_steps.iter().map(|s| s.clone().unwrap()), " | "));
+        let ans = format!(
+            "ids={}",
+            hcommon::join(produced.iter().map(|p| p.map(|x| x.to_string()).unwrap_or("panic".into())), ",")
+        );
+        out.bucket("sequence_through_model_sampleSeq");
+        out.case(&req, &ans, None, inputs.len() >= 2);
+    }
     out.case(
         &format!("# repeat seed={seed} n={}", inputs.len()),
         if bad.is_some() { "differs" } else { "same" },
@@ -581,7 +616,7 @@ fn run(args: &Args) {
         if total < 1.0 {
             for i in 0..20_000_000u64 {
                 let s = start.wrapping_add(i);
-                if fastrand::Rng::with_seed(s).f32() > total {
+                if fastrand::Rng::with_seed(s).f32() >= total {
                     found = Some((s, i));
                     break;
                 }
@@ -615,7 +650,7 @@ fn run(args: &Args) {
         let mut found = None;
         for i in 0..200_000_000u64 {
             let s = start.wrapping_add(i);
-            if fastrand::Rng::with_seed(s).f32() > total {
+            if fastrand::Rng::with_seed(s).f32() >= total {
                 found = Some((s, i));
                 break;
             }
